@@ -75,6 +75,20 @@ CLAIMS["C06"] = dict(
     technique="abstract evaluation of status predicates over the finite status domain + per-status CFG simulation + emitted-line typestate on the generator's CFG + sibling agreement of alias generators",
     ref="3/C06",
 )
+CLAIMS["C10"] = dict(
+    text="Decides the mechanisms that make 'compare-only means read-only' hold on every path instead of injecting faults at sampled "
+    "points: (1) truth-table of the mode switch - for every valuation with force=False and an existing output package the compare-only "
+    "branch runs; (2) provenance - inside that branch no value derived from the real project root reaches an emitter constructor, an "
+    "emit/run call, a RenderContext or a write sink (only _show_diffs' first argument and read-only tests may see real paths), all temp "
+    "generation is enclosed in `with TemporaryDirectory()`, and every _show_diffs result feeds the `raise GenerationError` test; (3) all "
+    "~60 filesystem write sinks on the generation path take paths derived from the directories the function was given (never cwd, home, "
+    "environment, absolute or parent-directory constants; debug logs only under gettempdir()); (4) destructive operations are an exact "
+    "table (rmtree(out_dir) in the direct branch, the atomic .tmp rename) and the ancestor __init__ loops stop at project_root; (5) no "
+    "exception handler in the emitters/generator reachable from generate() swallows a failure. The byte-identity of the tree after a "
+    "given fault is not executed.",
+    technique="truth-table evaluation of the mode switch + backward provenance (def-use) of path arguments per branch + sink enumeration with root classification + handler error-discipline over the call graph",
+    ref="3/C10",
+)
 
 NOT_APPLICABLE = {}
 
